@@ -161,6 +161,15 @@ class Ctx:
             if self.assumptions and getattr(self, "prog", None) is not None:
                 # interprocedural: a tested local call that cannot succeed under the assumptions
                 rt = result_test(atom)
+                if rt is not None and rt[0][0] == "call" and rt[0][1].startswith("cw_storage_plus::") and rt[0][1].endswith("::update") and rt[0][2] and rt[0][2][-1][0] == "closure" and self.level < 3:
+                    # ITEM.update(storage, closure) succeeds only if the closure does
+                    cc = update_closure_ctx(self.prog, rt[0], self.assumptions)
+                    if cc is not None:
+                        cc.level = self.level + 1
+                        if not success_exits(cc.settle()):
+                            for tg in rt[1]:
+                                if tg not in rt[2]:
+                                    rem.add((bi, tg))
                 if rt is not None and rt[0][0] == "call":
                     cb = _callee_body(self.prog, rt[0])
                     if cb is not None and cb.key != self.body.key and cb.kind == "fn" and len(cb.blocks) < 120:
@@ -471,6 +480,24 @@ def exits(ctx):
                     {"bb": bi, "idx": len(blk["stmts"]), "kind": "delegate", "term": ctx.T.call_term(t, bi), "callee": t.get("rkey"), "call": t}
                 )
     return out
+
+
+def update_closure_ctx(prog, callterm, assumptions=()):
+    """context of the closure of `ITEM.update(storage, [key,] closure)` with its parameter bound to
+    the load of the same item / key (what cw-storage-plus passes in)"""
+    from .mir import intern
+    args = callterm[2]
+    clo = args[-1]
+    cb = prog.body(clo[1]) if clo[0] == "closure" else None
+    if cb is None:
+        return None
+    head, rest = args[:2], args[2:-1]
+    if callterm[1].startswith("cw_storage_plus::Item::"):
+        stored = ("payload", ("call", "cw_storage_plus::Item::load", head), "Ok/Some")
+    else:
+        stored = ("call", callterm[1].rsplit("::", 1)[0] + "::may_load", head + rest)
+    caps = {n: v for _, n, v in clo[2]}
+    return Ctx(cb, params={2: intern(stored)}, captures=caps, assumptions=assumptions)
 
 
 def success_exits(ctx):
@@ -1071,7 +1098,14 @@ def resolve_terms(prog, t, depth=3, _memo=None, assumptions=()):
             args = tuple(rec(a) for a in t[2])
             cb = _callee_body(prog, t)
             out = None
-            if assumptions and t[1] == "std::option::Option::map" and len(args) == 2:
+            if t[1].startswith("cw_storage_plus::") and t[1].endswith("::update") and args and args[-1][0] == "closure" and depth > 0:
+                # the value ITEM.update returns is what its closure returned for the loaded value
+                cc = update_closure_ctx(prog, ("call", t[1], args), assumptions)
+                if cc is not None:
+                    rt_ = cc.settle().T.return_term()
+                    if not contains(rt_, lambda s_: s_[0] in ("cycle", "undef")):
+                        out = rec(rt_, depth - 1)
+            if out is None and assumptions and t[1] == "std::option::Option::map" and len(args) == 2:
                 # Option::map of a value whose variant the world fixes
                 a = assumed_ok(assumptions, args[0])
                 if a is False:
